@@ -2,6 +2,7 @@ package gen
 
 import (
 	"pgregory.net/rapid"
+	"strings"
 
 	"verif/harness/pgwire"
 	"verif/harness/play"
@@ -148,7 +149,7 @@ func Rich(t *rapid.T, o RichOpts) play.History {
 	h := play.History{}
 	h.Cfg.Table = RichTable(t, o)
 	h.Cfg.SetLimit = true
-	h.Cfg.Limit = rapid.SampledFrom([]int{512, 2048, 4096, 1 << 16}).Draw(t, "limit")
+	h.Cfg.Limit = rapid.SampledFrom([]int{512, 2048, 4096, 8192, 1 << 16}).Draw(t, "limit")
 	if rapid.IntRange(0, 3).Draw(t, "params?") == 0 {
 		h.Cfg.Params = map[string]string{"application": CString(80).Draw(t, "pv"), "k2": "v2"}
 	}
@@ -239,6 +240,31 @@ func Rich(t *rapid.T, o RichOpts) play.History {
 				body[j] = byte('a' + j%26)
 			}
 			m = script.CMsg{K: "raw", Over: true, Data: pgwire.Msg(rapid.SampledFrom([]byte{'Q', 'P', 'B', 'd', 'Y', 'S'}).Draw(t, "over-type"), body)}
+		case k == 24 && h.Cfg.Limit > 4200:
+			// an accepted message whose body is as large as / larger than the blocks a reader
+			// plausibly works with (4 KiB pages, the limit itself), possibly followed at once by
+			// an oversized one: what is left of a block after such a message is 0 bytes
+			sizes := []int{4091, 4092, 4095, 4096, 4097, 5000, 8187, 8188, 8192, h.Cfg.Limit / 2, h.Cfg.Limit - 4, h.Cfg.Limit - 5}
+			sz := rapid.SampledFrom(sizes).Draw(t, "large-body")
+			if sz > h.Cfg.Limit-4 {
+				sz = h.Cfg.Limit - 4
+			}
+			qt := q()
+			if sz-1 > len(qt) {
+				qt += strings.Repeat(" ", sz-1-len(qt))
+			}
+			m = script.CMsg{K: "Q", Query: qt}
+			if rapid.Bool().Draw(t, "large-as-copydata") {
+				m = script.CMsg{K: "d", Data: []byte(qt)}
+			}
+			if o.Oversized && rapid.Bool().Draw(t, "oversized-next") {
+				h.Msgs = append(h.Msgs, m)
+				if rapid.Bool().Draw(t, "sync-between") {
+					h.Msgs = append(h.Msgs, script.CMsg{K: "S"})
+				}
+				body := make([]byte, h.Cfg.Limit+rapid.IntRange(1, 600).Draw(t, "over"))
+				m = script.CMsg{K: "raw", Over: true, Data: pgwire.Msg(rapid.SampledFrom([]byte{'Q', 'P', 'B', 'd'}).Draw(t, "over-type"), body)}
+			}
 		case k == 23 && o.Malformed:
 			base := script.CMsg{K: rapid.SampledFrom([]string{"Q", "P", "B", "D", "E", "C"}).Draw(t, "mal-kind"), Query: q(), Name: "a", Portal: "p", Kind: 'S', Params: params()}
 			m = script.CMsg{K: "raw", Data: Malform(t, base.Bytes())}
